@@ -239,11 +239,12 @@ func (am *AppMapper) mapSimpleReturnType(retName string, appName string) *Type {
 }
 
 // IsPrimitive takes an input type string and returns true if the string is a builtin sysl primitive type.
-// This includes double, int64, float64, string, bool, date, datetime
+// This includes double, int64, float64, string, bool, date, datetime, int, float, decimal
 // Mostly used for parsing return statements
 func IsPrimitive(typeName string) bool {
 	switch typeName {
-	case "double", "int64", "float64", "string", "bool", "date", "datetime": //nolint:goconst
+	case "double", "int64", "float64", "string", "bool", "date", "datetime", //nolint:goconst
+		"int", "float", "decimal":
 		return true
 	default:
 		return false
